@@ -451,6 +451,64 @@ def _append_wrappers(tu):
     return _WRAPPERS[key]
 
 
+def concrete_partition(tu):
+    """wasmSplitStaticAndDynamicFunctions on concrete, hash-sorted lists: every function of the module lands in exactly one of the two
+    lists - static iff a reference function has the same hash - in order.  -> (discrepancy or None, number of cases)"""
+    from .. import pe
+    from ..pe import Ptr
+    ids = [2, 4, 6, 8]
+    refsets = [[], [2], [8], [4, 6], [2, 4, 6, 8], [1], [9], [1, 9], [5], [1, 2], [8, 9], [3, 4, 5], [2, 2], [0, 1], [2, 9]]
+    n = 0
+    for mod in (ids, ids[:1], []):
+        for refs in refsets:
+            out = {'static': [], 'dynamic': []}
+            cells = {}
+
+            def mkids(hs):
+                return {'length': len(hs), 'capacity': len(hs) + 1,
+                        'functionIDs': Ptr([{'hash': [h] + [0] * 19, 'functionIndex': 100 + k} for k, h in enumerate(hs)] + [{'hash': [255] * 20, 'functionIndex': -1}], 0)}
+
+            def append(interp, args, node):
+                tgt, fid = args[0], args[1]
+                which = [k for k, c in cells.items() if isinstance(tgt, Ptr) and tgt.c is c]
+                if len(which) != 1 or not isinstance(fid, dict):
+                    raise pe.PEError('append to %r' % (tgt,))
+                out[which[0]].append(fid['hash'][0])
+                return 1
+
+            def compare(interp, args, node):
+                a_, b_ = args
+                if not (isinstance(a_, dict) and isinstance(b_, dict)):
+                    a_ = interp.load(a_.c, a_.k) if isinstance(a_, Ptr) else a_
+                    b_ = interp.load(b_.c, b_.k) if isinstance(b_, Ptr) else b_
+                x, y = a_['hash'][0], b_['hash'][0]
+                return (x > y) - (x < y)
+            it = pe.Interp([tu], {'wasmFunctionIDsAppend': append, 'wasmFunctionIDsCompareHashes': compare, 'fprintf': lambda i, a, n_: 0,
+                                  'exit': pe.leaf_abort('exit'), 'abort': pe.leaf_abort('abort')})
+            it.cur_tu = tu
+
+            def setup():
+                out['static'][:] = []
+                out['dynamic'][:] = []
+                cells['static'] = {'v': {'length': 0, 'capacity': 0, 'functionIDs': 0}}
+                cells['dynamic'] = {'v': {'length': 0, 'capacity': 0, 'functionIDs': 0}}
+                return ('wasmSplitStaticAndDynamicFunctions', [mkids(mod), mkids(refs), Ptr(cells['static'], 'v'), Ptr(cells['dynamic'], 'v')], {})
+            try:
+                paths = [p for p in it.explore(setup)]
+            except (pe.PEError, IndexError, TypeError, KeyError) as e:
+                raise AnalysisBroken('split function on module hashes %r, reference hashes %r: %s' % (mod, refs, e))
+            n += 1
+            if len(paths) != 1 or paths[0].aborted:
+                return 'module hashes %r, reference hashes %r: %d paths%s' % (mod, refs, len(paths), ' (%s)' % paths[0].aborted if paths else ''), n
+            want_s = [h for h in mod if h in refs]
+            want_d = [h for h in mod if h not in refs]
+            if out['static'] != want_s or out['dynamic'] != want_d:
+                return ('a module with function hashes %r split against reference hashes %r gives static %r and dynamic %r; every function '
+                        'belongs to exactly one list - static iff the reference has the same hash: %r / %r - a function in neither list is '
+                        'written to no file, one in both is defined twice' % (mod, refs, out['static'], out['dynamic'], want_s, want_d)), n
+    return None, n
+
+
 def check_partition(chk):
     tu = astdb.dump_ast(astdb.src('w2c2/main.c'))
     chk.unit(tu)
@@ -472,7 +530,15 @@ def check_partition(chk):
                 cursor['ref'] = n['name']
     chk.require(set(cursor) == {'fn', 'ref'}, 'cursor variables of the split function not recognised: %r' % cursor)
     loops = [n for n in body.get('inner', []) if n.get('kind') in ('WhileStmt', 'ForStmt')]
-    chk.require(len(loops) == 2, 'split function has %d top-level loops (expected merge loop + drain loop)' % len(loops))
+    # decision on concrete hash-sorted lists (second decision, and the decision for a split of another shape)
+    cbad, ncases = concrete_partition(tu)
+    chk.expect(cbad is None, 'R09.3', 'partition@concrete', 'wasmSplitStaticAndDynamicFunctions: %s' % cbad, 'wasmSplitStaticAndDynamicFunctions:partition',
+               detail_ok='%d (module, reference) hash lists: every function in exactly one list, static iff the hash is in the reference' % ncases)
+    if len(loops) != 2:
+        if cbad is None:
+            chk.undecide('split function has %d top-level loops (expected merge loop + drain loop); it partitions the %d concrete hash lists '
+                         'correctly, which does not decide all lists' % (len(loops), ncases))
+        return
     cmpvar = None
     site = 'wasmSplitStaticAndDynamicFunctions'
     for li, loop in enumerate(loops):
